@@ -34,6 +34,11 @@ def cases(tier, seed, prep=None):
         who = "ab"[i % 2]
         out.append({"kind": "random", "seed": seed * 1000003 + 60000 + i, "min_msgs": 3, "ndrops": [0, 0, 1],
                     "cfg_over": {"api_" + who: "deferred", "get_" + who: "lazy", "cancel_gets_" + who: 1 + i % 3}})
+    # ... and one that cancels a later outstanding read from inside the callback of an earlier one
+    for i in range(60 if tier == "quick" else 2000):
+        who = "ab"[i % 2]
+        out.append({"kind": "random", "seed": seed * 1000003 + 62000 + i, "min_msgs": 4, "ndrops": [0, 0, 1], "cancel_in_callback": [who.upper(), 1 + i % 4],
+                    "cfg_over": {"api_" + who: "deferred", "get_" + who: "lazy"}})
     # an application that lets many messages pile up unread (70-100) and only then starts reading
     for i in range(10 if tier == "quick" else 300):
         who = "ab"[i % 2]
@@ -59,6 +64,8 @@ def cases(tier, seed, prep=None):
 def run_case(spec):
     world, drv, sch, cfg = build_case(spec, max_msgs=spec.get("max_msgs", 12), max_size=spec.get("max_size", 2000))
     dilated = [0]
+    if spec.get("cancel_in_callback"):
+        drv.app(spec["cancel_in_callback"][0]).cancel_in_callback = spec["cancel_in_callback"][1]
     if spec.get("dilate"):
         rng = world.work_rng
         for app in (drv.a, drv.b):
@@ -115,6 +122,7 @@ def run_case(spec):
                      "drops": drv.drops_done, "drops_skipped": drv.drops_skipped, **{"drop_" + k: v for k, v in drv.drop_kinds.items()},
                      "complete": int(drv.all_delivered()), "steps": world.step,
                      "kind_" + spec["kind"]: 1, "dilate_calls": dilated[0], "largest_unread_backlog": backlog, "gets_given_up": getattr(drv.a, "cancelled_gets", 0) + getattr(drv.b, "cancelled_gets", 0),
+                     "gets_cancelled_from_inside_a_callback": getattr(drv.a, "cancelled_in_callback", 0) + getattr(drv.b, "cancelled_in_callback", 0),
                      "dilate_records_rx": sum(1 for app in (drv.a, drv.b) for (_, m) in app.inbound
                                               if m.get("type") == "message" and str(m.get("phase", "")).startswith("dilate-")),
                      "notrans_seen": len(MON.notrans), "log_errors_seen": len(MON.errors)},
